@@ -304,8 +304,24 @@ func init() {
 				args = append(args, v)
 			}
 		}
+		// parameters the harness does not know about (added by a change to the code under test) get an arbitrary value of
+		// their type: any value some caller may pass
+		for len(args) < len(fn.Params) {
+			pt := fn.Params[len(args)].Type()
+			switch u := pt.Underlying().(type) {
+			case *types.Basic:
+				switch {
+				case u.Info()&types.IsBoolean != 0:
+					args = append(args, m.symBool("vcall_"+name+"_arg"+fmt.Sprint(len(args))))
+				default:
+					args = append(args, zero(pt))
+				}
+			default:
+				args = append(args, zero(pt))
+			}
+		}
 		if len(args) != len(fn.Params) {
-			panic(unsupported{"vCallMethod: " + name + " takes a different number of arguments"})
+			panic(unsupported{"vCallMethod: " + name + " takes fewer arguments than the harness passes"})
 		}
 		res := m.callSSA(fr, 0, fn, args, nil)
 		results := fn.Signature.Results()
